@@ -175,7 +175,8 @@ class SweepSession:
             self._forms[key] = node
         return node
 
-    def call(self, fn, argnames, named=None, wrap=None, alias=False):
+    def call(self, fn, argnames, named=None, wrap=None, alias=False,
+             wall=4.0):
         """execute one call with fresh pool values; returns (outcome_raw,
         args(list of Value)); alias=True passes ONE object for equal names"""
         args = [POOL[POOL_INDEX[a]][1](self) for a in argnames]
@@ -190,7 +191,7 @@ class SweepSession:
         F.seed = 1
         node = self.form(len(args), named)
         core.set_fuel(30000, 30000)
-        core.arm(4.0)
+        core.arm(wall)
         try:
             o = core.outcome_raw(lambda: node.evaluate(env))
             if o[0] == "value" and not (
